@@ -295,7 +295,7 @@ ASSERT_TABLE = {
     ("aggregate_flox._prepare_for_flox", "array.shape[-1] == group_idx.shape[0]"): (INV, "chunk_reduce reshapes array and group_idx to the same trailing length"),
     ("aggregate_flox.ffill", "axis == ndim - 1"): (INV, "chunk_scan/scan_binary_op pass axis = ndim-1; groupby_scan normalises a single axis"),
     ("aggregations._atleast_1d", "len(inp) >= min_length"): (OUTSIDE, "isbin / dtype / fill sequences shorter than the number of groupers: misaligned arguments"),
-    ("aggregations.AlignedArrays.__post_init__", "self.array.shape[-1] == self.group_idx.size"): (GUARDED, "core.groupby_scan|by_.ndim != 1|groupby_scan with n-D labels"),
+    ("aggregations.AlignedArrays.__post_init__", "self.array.shape[-1] == self.group_idx.size"): (GUARDED, "core.groupby_scan|by_.shape[-1] != array.shape[-1]|groupby_scan with labels of another length than the scanned axis (and, by the refusal above it, n-D labels)"),
     ("aggregations.ScanState.__post_init__", "self.state is not None or self.result is not None"): (INV, "both constructors pass one of the two"),
     ("aggregations.scan_binary_op", "left_state.state is not None"): (INV, "blelloch scan: left operand always comes from preop/binop, both set state"),
     ("aggregations.scan_binary_op", "right is not None"): (INV, "ScanState invariant"),
